@@ -131,6 +131,9 @@ func (w *World) applyCred(c Cred, form url.Values) {
 	if c.ID == 0 {
 		return
 	}
+	if extraApplyCred != nil && extraApplyCred(w, c, form) {
+		return
+	}
 	form.Set("client_id", clientName(c.ID))
 	spec := w.clientSpec(c.ID)
 	if spec != nil && spec.Public && c.OK {
@@ -142,6 +145,10 @@ func (w *World) applyCred(c Cred, form url.Values) {
 		form.Set("client_secret", "wrong-secret")
 	}
 }
+
+// hook for suites whose clients authenticate with something else than a secret (set by the suite; it
+// returns true when it rendered the credential)
+var extraApplyCred func(w *World, c Cred, form url.Values) bool
 
 func (w *World) clientSpec(id int) *ClientSpec {
 	for i := range w.Spec.Static {
